@@ -39,8 +39,14 @@ theorem train_clears_when_entering_training : ∀ tr, table.trainClears tr true 
 /-- `Module._load_from_state_dict` reaches `_clear_cache()` -/
 theorem load_state_dict_clears : table.loadClears = true := by decide
 
-/-- `ExactGP.set_train_data` reaches `self.prediction_strategy = None` -/
-theorem set_train_data_drops_strategy : Effect.dropStrategy ∈ table.setTrainData := by decide
+/-- `ExactGP.set_train_data` reaches `self.prediction_strategy = None` whichever arguments it is given
+(inputs and targets, targets only, inputs only) -/
+theorem set_train_data_drops_strategy :
+    ∀ a ∈ DataArgs.all, Effect.dropStrategy ∈ table.setTrainData a.inputs a.targets := by decide
+
+/-- the re-whitening of parameters loaded from an old-format state dict (`VariationalStrategy.__call__`) ends with
+`clear_cache_hook(self)` -/
+theorem legacy_conversion_clears : table.legacyConversionClears = true := by decide
 
 /-- `_VariationalStrategy.__call__` reaches `_clear_cache()` in training mode (and only for non-prior calls) -/
 theorem variational_call_clears_in_training :
@@ -167,16 +173,16 @@ theorem inv_step (op : Op) : Inv (step T s op).next := by
       have htr : s.training = true := by
         cases h : s.training <;> simp [h] at hc ⊢
       have h1 := call_inv hT hI .default false
-      obtain ⟨_, ft, _, _⟩ := call_fields hT hI .default false
+      obtain ⟨_, ft, _⟩ := call_fields hT hI .default false
       refine ⟨h1.data, h1.supp, ?_, ?_⟩
       · intro h; simp only at h; rw [ft, htr] at h; simp at h
       · intro h; simp only at h; rw [ft, htr] at h; simp at h
     · exact hI
-  | setTrainData =>
+  | setTrainData a =>
     simp only [step]
     split
     · rename_i hk
-      have hstd := hT.set_train_data s.kind (Kind.mem_all _) hk
+      have hstd := hT.set_train_data s.kind (Kind.mem_all _) hk a (by cases a <;> simp [DataArgs.all])
       refine ⟨rfl, hI.supp.clearBy _, ?_, ?_⟩
       · intro htr sl e he
         simp only at htr he ⊢
@@ -187,14 +193,14 @@ theorem inv_step (op : Op) : Inv (step T s op).next := by
       · intro htr hs
         simp only at htr hs
         exfalso
-        cases hq : clearBy T.setTrainData s.store sStrat with
+        cases hq : clearBy (T.setTrainData a.inputs a.targets) s.store sStrat with
         | none => rw [hq] at hs; simp at hs
         | some e =>
           obtain ⟨h1, h2⟩ := clearBy_some hq
           rw [hstd sStrat (hI.supp sStrat e h1) (by decide)] at h2
           simp at h2
     · exact hI
-  | loadStateDict =>
+  | loadStateDict old =>
     simp only [step, hT.load, if_true]
     have hn := clearBy_all_none hI.supp _ (hT.complete s.kind (Kind.mem_all _))
     refine ⟨hI.data, hI.supp.clearBy _, fun _ => FreshS.of_none hn, ?_⟩
@@ -257,7 +263,7 @@ theorem inv_step (op : Op) : Inv (step T s op).next := by
 /-- The answer of a `predict` / prior-mode call is the closed form of the current versions; other operations
 return nothing. -/
 theorem answer_step (op : Op) (a : Answer) (h : (step T s op).answer = some a) :
-    ∃ c prior, a = specAnswer T s.kind s.training s.pv s.dv c prior := by
+    ∃ c prior, a = specAnswer T s.kind s.training (callPv s prior) s.dv c prior := by
   cases op with
   | predict c =>
     refine ⟨c, false, ?_⟩
@@ -270,8 +276,8 @@ theorem answer_step (op : Op) (a : Answer) (h : (step T s op).answer = some a) :
   | train => simp [step] at h
   | eval => simp [step] at h
   | step => simp only [step] at h; split at h <;> simp at h
-  | setTrainData => simp only [step] at h; split at h <;> simp at h
-  | loadStateDict => simp [step] at h
+  | setTrainData a => simp only [step] at h; split at h <;> simp at h
+  | loadStateDict old => simp [step] at h
   | fantasy o =>
     cases o <;> simp only [step] at h
     · split at h <;> simp at h
@@ -324,8 +330,8 @@ theorem inv_fantasy_model (op : Op) (f : State) (h : (step T s op).fantasy = som
   | train => simp [step] at h
   | eval => simp [step] at h
   | step => simp only [step] at h; split at h <;> simp at h
-  | setTrainData => simp only [step] at h; split at h <;> simp at h
-  | loadStateDict => simp [step] at h
+  | setTrainData a => simp only [step] at h; split at h <;> simp at h
+  | loadStateDict old => simp [step] at h
   | backward => simp only [step] at h; split at h <;> simp at h
 
 /-- the invariant along a whole history -/
@@ -387,21 +393,23 @@ theorem fantasy_frame (T : Table) (hT : TableOK T) (s : State) (o : FantasyOutco
     (step T s (.fantasy o)).next.hasData = s.hasData ∧
     (step T s (.fantasy o)).next.pv = s.pv ∧ (step T s (.fantasy o)).next.dv = s.dv ∧
     (step T s (.fantasy o)).next.stratDefault = s.stratDefault ∧ (step T s (.fantasy o)).next.stratLazy = s.stratLazy ∧
+    (step T s (.fantasy o)).next.pendingConversion = s.pendingConversion ∧
     (∀ sl e, s.store sl = some e → (step T s (.fantasy o)).next.store sl = some e) ∧
     (∀ sl e, (step T s (.fantasy o)).next.store sl = some e → s.store sl = some e ∨ (e.pv = s.pv ∧ e.dv = s.dv)) := by
   have same : ∀ s' : State, s' = s → s'.kind = s.kind ∧ s'.training = s.training ∧ s'.hasData = s.hasData ∧
       s'.pv = s.pv ∧ s'.dv = s.dv ∧ s'.stratDefault = s.stratDefault ∧ s'.stratLazy = s.stratLazy ∧
+      s'.pendingConversion = s.pendingConversion ∧
       (∀ sl e, s.store sl = some e → s'.store sl = some e) ∧
       (∀ sl e, s'.store sl = some e → s.store sl = some e ∨ (e.pv = s.pv ∧ e.dv = s.dv)) := by
     intro s' h; subst h
-    exact ⟨rfl, rfl, rfl, rfl, rfl, rfl, rfl, fun _ _ h => h, fun _ _ h => Or.inl h⟩
+    exact ⟨rfl, rfl, rfl, rfl, rfl, rfl, rfl, rfl, fun _ _ h => h, fun _ _ h => Or.inl h⟩
   cases o with
   | ok =>
     by_cases hacc : fantasyAccepts T s = true
     · have hn : (step T s (.fantasy .ok)).next = { s with store := touchAll s.store (fun _ => newEntry s false) (fantasyReads s ++ (if s.kind.isExact then attrsActive T s.kind s.training else [])) } := by
         simp [step, hacc]
       rw [hn]
-      refine ⟨rfl, rfl, rfl, rfl, rfl, rfl, rfl, ?_, ?_⟩
+      refine ⟨rfl, rfl, rfl, rfl, rfl, rfl, rfl, rfl, ?_, ?_⟩
       · intro sl e he
         exact touchAll_of_some _ _ _ _ _ he
       · intro sl e he
@@ -419,15 +427,17 @@ theorem fantasy_frame_answers (T : Table) (hT : TableOK T) (k : Kind) (ops : Lis
     (call T (step T (run T (init k) ops).1 (.fantasy o)).next c prior).2 = (call T (run T (init k) ops).1 c prior).2 := by
   have hI : Inv (run T (init k) ops).1 := inv_run hT (inv_init k 0 0) ops
   have hI' := inv_step hT hI (.fantasy o)
-  obtain ⟨hk, ht, _, hp, hd, _⟩ := fantasy_frame T hT (run T (init k) ops).1 o
-  rw [call_answer hT hI', call_answer hT hI, hk, ht, hp, hd]
+  obtain ⟨hk, ht, _, hp, hd, _, _, hc, _⟩ := fantasy_frame T hT (run T (init k) ops).1 o
+  rw [call_answer hT hI', call_answer hT hI, hk, ht, hd]
+  unfold callPv State.converts
+  rw [hk, hp, hc]
 
 /-! ### The hypotheses matter, and are satisfiable -/
 
 /-- Non-vacuity: a concrete history on the generated table with non-trivial cache reuse. -/
 def demo : List Op :=
-  [.eval, .predict .fastPredVar, .setTrainData, .predict .default, .train, .step, .eval, .predict .noDetach,
-   .backward, .loadStateDict, .predict .fastPredVar]
+  [.eval, .predict .fastPredVar, .setTrainData .targetsOnly, .predict .default, .train, .step, .eval, .predict .noDetach,
+   .backward, .loadStateDict false, .predict .fastPredVar]
 
 example : ((run table (init .sgpr) demo).2.map fun a => (a.pv, a.dv, a.used.length)) =
     [(0, 0, 5), (0, 1, 5), (1, 1, 5), (2, 1, 5)] := by decide
@@ -436,8 +446,24 @@ example : (run table (init .exact) demo).2.all (·.current) = true := by decide
 /-- Without `self.prediction_strategy = None` in `set_train_data` the model *does* produce a stale answer on
 `eval; predict; set_train_data; predict` — the table fact is what the theorem rests on. -/
 theorem stale_without_set_train_data_clear :
-    ((run { table with setTrainData := [] } (init .exact)
-        [.eval, .predict .default, .setTrainData, .predict .default]).2.map (·.current)) = [true, false] := by decide
+    ((run { table with setTrainData := fun _ _ => [] } (init .exact)
+        [.eval, .predict .default, .setTrainData .both, .predict .default]).2.map (·.current)) = [true, false] := by decide
+
+/-- … and it must be reached for a targets-only update too: with the statement inside the `inputs is not None`
+branch, `eval; predict; set_train_data(targets=…); predict` answers from the old targets. -/
+theorem stale_when_only_inputs_branch_clears :
+    ((run { table with setTrainData := fun i _ => if i then [.dropStrategy] else [] } (init .exact)
+        [.eval, .predict .default, .setTrainData .targetsOnly, .predict .default]).2.map (·.current)) = [true, false] ∧
+    ((run { table with setTrainData := fun i _ => if i then [.dropStrategy] else [] } (init .exact)
+        [.eval, .predict .default, .setTrainData .inputsOnly, .predict .default]).2.map (·.current)) = [true, true] := by decide
+
+/-- Without the memo reset at the end of the re-whitening block, a whitened variational model loaded from an
+old-format state dict answers from the memo built from the parameters as loaded. -/
+theorem stale_without_legacy_conversion_clear :
+    ((run { table with legacyConversionClears := false } (init .svgp)
+        [.loadStateDict true, .eval, .predict .default, .predict .default]).2.map (·.current)) = [false, false] ∧
+    ((run table (init .svgp)
+        [.loadStateDict true, .eval, .predict .default, .predict .default]).2.map (fun a => (a.current, a.pv))) = [(true, 2), (true, 2)] := by decide
 
 /-- Likewise without the `_clear_cache()` call in `Module.train`: `eval; predict; train; step; eval; predict`. -/
 theorem stale_without_train_clear :
